@@ -73,10 +73,11 @@ Definition check_lcase (c : lcase) : list N :=
 Definition same_requests (a b : list request) : bool :=
   Nat.eqb (length a) (length b) && includes a b && includes b a.
 
-Record cobs := { co_sent : list request; co_addr : bytes; co_per : N; co_all : N }.
+Record cobs := { co_sent : list request; co_addr : bytes; co_per : N; co_all : N; co_open : bool }.
 
 (* codes: 10*i + 3  the requests written at event i differ from the model's
-          10*i + 4  serverSessions[addr] / allSessions sizes differ from the model's *)
+          10*i + 4  serverSessions[addr] / allSessions sizes differ from the model's
+          10*i + 5  the session is open / gone after the event, the model says otherwise *)
 Fixpoint ctrack (c : client) (evs : list (cevent * cobs)) (i : N) : list N :=
   match evs with
   | [] => []
@@ -84,6 +85,7 @@ Fixpoint ctrack (c : client) (evs : list (cevent * cobs)) (i : N) : list N :=
       let '(c', out) := cstep c e in
       if negb (same_requests out (co_sent o)) then [10 * i + 3]
       else if negb ((cnt_of (cl_server c') (co_addr o) =? co_per o) && (cl_all c' =? co_all o)) then [10 * i + 4]
+      else if negb (Bool.eqb (cl_connected c') (co_open o)) then [10 * i + 5]
       else ctrack c' evs' (i + 1)
   end.
 
